@@ -30,6 +30,7 @@ pub const HS_SECRET_OTHER: &[u8] = b"another-hs256-secret-fedcba9876543210-xyz";
 
 /// Issuer signing algorithm / key pair selector. Names are what appears in
 /// case descriptions.
+#[allow(dead_code)]
 pub const ISSUER_ALGS: [&str; 3] = ["ES256", "EdDSA", "HS256"];
 
 pub fn issuer_enc(alg: &str) -> EncodingKey {
@@ -105,6 +106,7 @@ pub fn issuer_pub_pem(alg: &str) -> &'static str {
 /// Holder key kinds: "es256", "eddsa" (fixture holder keys), and two more
 /// holders that re-use the issuer fixture key pairs ("es256-b", "eddsa-b") so
 /// that two different holders of the same family exist.
+#[allow(dead_code)]
 pub const HOLDER_KINDS: [&str; 4] = ["es256", "eddsa", "es256-b", "eddsa-b"];
 
 pub fn holder_jwk_json(kind: &str) -> Value {
